@@ -180,12 +180,24 @@ def temporal_case(ctx, rng, idx):
     cfg.invalid_rate = 0.1  # refused calls are part of the build: they must leave no trace in what is measured
     cfg.avoid = {"copy", "clear"}
     cfg.n_ops = rng.randint(5, 25)
-    try:
-        live, _ = history.run_history(NullCtx(), rng, cfg, battery_every=0)
-    except Exception as e:
-        ctx.note("build-failed:" + type(e).__name__)
-        return
-    h = live[0][0]
+    if ctx.tier == "thorough" and idx % 20000 == 9:
+        # (thorough tier) one snapshot with 1150 hyperedges - a chain of overlapping triples, so that shortest paths in its
+        # line graph are long - next to two small ones: the averaged centralities are exact sums, not estimates
+        import hypergraphx as hgx
+
+        ctx.event("snapshot-with-1150-hyperedges")
+        h = hgx.TemporalHypergraph()
+        for i in range(1150):
+            h.add_edge((i, i + 1, i + 2), 0)
+        for e, t in (((0, 5), 1), ((5, 9, 11), 1), ((2, 3), 4), ((3, 4, 2000), 4)):
+            h.add_edge(e, t)
+    else:
+        try:
+            live, _ = history.run_history(NullCtx(), rng, cfg, battery_every=0)
+        except Exception as e:
+            ctx.note("build-failed:" + type(e).__name__)
+            return
+        h = live[0][0]
     S = observe(h)
     if not S.edges:
         return
